@@ -45,6 +45,9 @@ pub struct SubScenario {
 	/// what the close notification's `error` member holds: 0 a plain string, 1 an object, 2 null, 3 a number,
 	/// 4 a string with escapes
 	pub close_payload: u8,
+	/// the client is built through `WsClientBuilder` with an RPC middleware installed (`Some(true)`: as the last builder
+	/// call, `Some(false)`: as the first) instead of the core `ClientBuilder`
+	pub ws_builder: Option<bool>,
 }
 
 pub struct SubState {
@@ -111,16 +114,16 @@ impl SubScenario {
 impl Scenario for SubScenario {
 	type State = SubState;
 	fn name(&self) -> String {
-		format!("cli_mem/subs:cap{}:{}:{:?}:{:?}:{:?}{}", self.cap, if self.sub_ids_numeric { "num" } else { "str" }, self.id_kind, self.groups, self.consumer, if self.close_payload > 0 { format!(":close-payload{}", self.close_payload) } else { String::new() })
+		format!("cli_mem/subs:cap{}:{}:{:?}:{:?}:{:?}{}", self.cap, if self.sub_ids_numeric { "num" } else { "str" }, self.id_kind, self.groups, self.consumer, if self.close_payload > 0 { format!(":close-payload{}", self.close_payload) } else { String::new() }) + match self.ws_builder { None => "", Some(true) => ":ws-builder-middleware-last", Some(false) => ":ws-builder-middleware-first" }
 	}
 	fn config(&self) -> Value {
-		json!({"buffer_capacity": self.cap, "numeric_subscription_ids": self.sub_ids_numeric, "id_kind": format!("{:?}", self.id_kind), "push_groups": format!("{:?}", self.groups), "consumer_script": format!("{:?}", self.consumer), "messages": self.texts()})
+		json!({"buffer_capacity": self.cap, "numeric_subscription_ids": self.sub_ids_numeric, "id_kind": format!("{:?}", self.id_kind), "push_groups": format!("{:?}", self.groups), "consumer_script": format!("{:?}", self.consumer), "messages": self.texts(), "built_with": match self.ws_builder { None => "ClientBuilder", Some(true) => "WsClientBuilder, set_rpc_middleware last", Some(false) => "WsClientBuilder, set_rpc_middleware first" }})
 	}
 	fn mask(&self) -> fn(&str) -> bool {
 		mask
 	}
 	fn setup(&self) -> SubState {
-		let shared = Arc::new(Shared { rx_split: false, fail_ping: false,
+		let shared = Arc::new(Shared { rx_split: false, fail_ping: false, fail_close: false,
 			sent: Default::default(),
 			send_calls: Default::default(),
 			fail_send_at: None,
@@ -130,11 +133,14 @@ impl Scenario for SubScenario {
 			tx_closed: Default::default(),
 			tx_points: false,
 		});
-		let client: Client = ClientBuilder::default()
-			.request_timeout(Duration::from_secs(3600))
-			.max_buffer_capacity_per_subscription(self.cap)
-			.id_format(self.id_kind)
-			.build_with_tokio(MockTx(shared.clone()), MockRx(shared.clone()));
+		let client: Client = match self.ws_builder {
+			None => ClientBuilder::default()
+				.request_timeout(Duration::from_secs(3600))
+				.max_buffer_capacity_per_subscription(self.cap)
+				.id_format(self.id_kind)
+				.build_with_tokio(MockTx(shared.clone()), MockRx(shared.clone())),
+			Some(mw_last) => crate::clim::ws_builder_plain(self.cap, self.id_kind, mw_last, shared.clone()),
+		};
 		let client = Arc::new(client);
 		let keep_a = Arc::new(Mutex::new(None));
 		let call_result = Arc::new(Mutex::new(None));
@@ -506,11 +512,17 @@ pub fn scenarios(thorough: bool) -> Vec<SubScenario> {
 						}
 						let variants: Vec<(bool, IdKind)> = if thorough { vec![(false, IdKind::Number), (true, IdKind::String)] } else if (idx + si) % 2 == 0 { vec![(false, IdKind::Number)] } else { vec![(true, IdKind::String)] };
 						for (numeric, kind) in variants {
-							out.push(SubScenario { sub_ids_numeric: numeric, id_kind: kind, cap: *cap, groups: groups.clone(), consumer: script.clone(), close_payload: 0 });
+							out.push(SubScenario { sub_ids_numeric: numeric, id_kind: kind, cap: *cap, groups: groups.clone(), consumer: script.clone(), close_payload: 0, ws_builder: None });
+							// the same client configuration expressed through WsClientBuilder with a middleware: whenever A can
+							// fall behind (two notifications for A), and on a stride otherwise
+							let lag_possible = seq.iter().filter(|p| **p == Push::NA).count() >= 2;
+							if (lag_possible && comp.len() == len) || (idx + si) % 7 == 0 {
+								out.push(SubScenario { sub_ids_numeric: numeric, id_kind: kind, cap: *cap, groups: groups.clone(), consumer: script.clone(), close_payload: 0, ws_builder: Some((idx + si) % 2 == 0) });
+							}
 							// other shapes of the close notification's payload: for the reading consumer, short sequences
 							if si == 0 && len <= 2 && seq.contains(&Push::EA) && *cap == caps[0] {
 								for cp in 1..=4u8 {
-									out.push(SubScenario { sub_ids_numeric: numeric, id_kind: kind, cap: *cap, groups: groups.clone(), consumer: script.clone(), close_payload: cp });
+									out.push(SubScenario { sub_ids_numeric: numeric, id_kind: kind, cap: *cap, groups: groups.clone(), consumer: script.clone(), close_payload: cp, ws_builder: None });
 								}
 							}
 						}
@@ -525,7 +537,7 @@ pub fn scenarios(thorough: bool) -> Vec<SubScenario> {
 pub fn check(rep: &Reporter) {
 	let thorough = rep.tier.thorough();
 	rep.set_rule(
-		"two subscriptions A, B and one pending call; server push sequences of length 1..3 (thorough 4) over {notification for A, for B, for an unknown subscription id, close/error notification for A (payload a string; on short sequences also an object, null, a number, a string with escapes), method notification, response to the pending call}, each delivered under every grouping into consecutive messages (single objects / arrays: all 2^(n-1) compositions), × buffer capacity {1,2} (thorough {1,2,3}) × 7 consumer scripts for A over {next, unsubscribe, drop} × numeric/string ids; for every scenario the complete tree of interleavings of deliveries and consumer actions is explored (DFS, no bound). plus: a second subscribe call answered with the id of the live subscription (refused; the live stream keeps yielding exactly its own items; no unsubscribe goes out), all interleavings with three notifications. Oracle: a bounded-queue reference model replayed over the execution's own trace (items, order, end of stream and its reason, number of unsubscribe requests naming A on the wire, the pending call's result).",
+		"two subscriptions A, B and one pending call; server push sequences of length 1..3 (thorough 4) over {notification for A, for B, for an unknown subscription id, close/error notification for A (payload a string; on short sequences also an object, null, a number, a string with escapes), method notification, response to the pending call}, each delivered under every grouping into consecutive messages (single objects / arrays: all 2^(n-1) compositions), × buffer capacity {1,2} (thorough {1,2,3}) × 7 consumer scripts for A over {next, unsubscribe, drop} × numeric/string ids, and for the sequences with two notifications for A (and a stride of the others) once more with the client built through WsClientBuilder with an RPC middleware set as the last resp. first builder call; for every scenario the complete tree of interleavings of deliveries and consumer actions is explored (DFS, no bound). plus: a second subscribe call answered with the id of the live subscription (refused; the live stream keeps yielding exactly its own items; no unsubscribe goes out), all interleavings with three notifications. Oracle: a bounded-queue reference model replayed over the execution's own trace (items, order, end of stream and its reason, number of unsubscribe requests naming A on the wire, the pending call's result).",
 	);
 	rep.assume("the subscribe acknowledgements of the prelude are delivered without scheduling points; B's consumer is free-running");
 	let scen = scenarios(thorough);
@@ -594,7 +606,7 @@ impl Scenario for BackpressureScenario {
 		mask_bp
 	}
 	fn setup(&self) -> BpState {
-		let shared = Arc::new(Shared { rx_split: false, fail_ping: false,
+		let shared = Arc::new(Shared { rx_split: false, fail_ping: false, fail_close: false,
 			sent: Default::default(),
 			send_calls: Default::default(),
 			fail_send_at: None,
@@ -756,6 +768,7 @@ impl Scenario for DupIdScenario {
 		let shared = Arc::new(Shared {
 			rx_split: false,
 			fail_ping: false,
+			fail_close: false,
 			sent: Default::default(),
 			send_calls: Default::default(),
 			fail_send_at: None,
